@@ -78,6 +78,7 @@ var c05Kinds = []string{"upper", "lower", "altcase", "tabs", "multiblank", "trai
 var c05Decor = []string{"//", "// ", "#", "# ", "*", " * ", ";", ";; ", "--", "-- ", ">", "> ", "|", "| ", "%", "% ", "> > "}
 var c05Dashes = []string{"‒", "–", "—", "‐"}
 var c05DigitDot = regexp.MustCompile(`([0-9])\.(\s|$)`)
+var c05DigitDotBlank = regexp.MustCompile(`([0-9])\.([ \t]+[^ \t])`)
 
 func genXforms(t *rapid.T, kinds []string, maxN int) []xform {
 	n := lib.IntN(t, 1, maxN, "nxforms")
@@ -282,6 +283,8 @@ func applyXforms(ls []tline, ts []xform) ([]tline, map[string]int, int) {
 				ls[i].s = strings.Replace(ls[i].s, "-", c05Dashes[x.Arg%len(c05Dashes)], -1)
 			case "dotdot": // C11 only: a number followed by a period gets a second one ("2.0." -> "2.0..")
 				ls[i].s = c05DigitDot.ReplaceAllString(ls[i].s, "${1}..${2}")
+			case "dotdash": // C11 only: continental clause numbering, "2.0." -> "2.0.-" (followed by a blank, never at the line end)
+				ls[i].s = c05DigitDotBlank.ReplaceAllString(ls[i].s, "${1}.-${2}")
 			case "quotes":
 				s := ls[i].s
 				if x.Arg%2 == 0 {
